@@ -7,6 +7,7 @@
 -/
 import CachedModel.State
 import CachedProofs.Lemmas.AMap
+import CachedProofs.Lemmas.EvictId
 
 namespace Cached
 
@@ -83,6 +84,12 @@ theorem qsame_applyEvict (s : State) (e : Evicted) : QSame s (applyEvict s e) :=
   obtain ⟨a, key, w⟩ := e
   dsimp only
   split <;> exact QSame.of_eq rfl rfl rfl rfl rfl rfl rfl
+
+theorem qsame_applyEvictId (s : State) (e : Evicted) : QSame s (applyEvictId s e) := by
+  rw [applyEvictId_eq]
+  split
+  · exact qsame_applyEvict s e
+  · exact QSame.of_eq rfl rfl rfl rfl rfl rfl rfl
 
 theorem qsame_foldl_applyEvict (l : List Evicted) (s : State) : QSame s (l.foldl applyEvict s) := by
   induction l generalizing s with
@@ -734,7 +741,7 @@ theorem qsame_sweepEvict (s : State) (id : Nat) : QSame s (sweepEvict s id).1 :=
   split
   · rename_i e _
     exact QSame.trans (QSame.of_eq (s' := { s with adm := (s.adm.delete id).1 }) rfl rfl rfl rfl rfl rfl rfl)
-      (qsame_applyEvict _ e)
+      (qsame_applyEvictId _ e)
   · exact QSame.refl s
 
 theorem qsame_sweepEntries (l : List ((Nat × Nat) × Nat)) :
